@@ -13,13 +13,13 @@ Traces == JsonDeserialize(IOEnv.TRACE_FILE)
 
 VARIABLES tid, verdict
 
-RECURSIVE FirstDiff(_, _, _)
-\* first index where observed and expected attribute lists differ (0 if none)
-FirstDiff(obs, exp, i) ==
-    IF i > Len(obs) /\ i > Len(exp) THEN 0
-    ELSE IF i > Len(obs) \/ i > Len(exp) THEN i
-    ELSE IF obs[i][1] # exp[i].n \/ obs[i][2] # exp[i].k \/ obs[i][3] # exp[i].v \/ obs[i][4] # exp[i].h THEN i
-    ELSE FirstDiff(obs, exp, i + 1)
+\* first index where observed and expected attribute lists differ (0 if none); computed as a minimum over a set (a recursive
+\* scan over thousands of attributes costs quadratic time in TLC)
+FirstDiff(obs, exp, i0) ==
+    LET n == IF Len(obs) < Len(exp) THEN Len(obs) ELSE Len(exp)
+        d == {i \in 1..n : obs[i][1] # exp[i].n \/ obs[i][2] # exp[i].k \/ obs[i][3] # exp[i].v \/ obs[i][4] # exp[i].h}
+    IN IF d # {} THEN CHOOSE i \in d : \A j \in d : i <= j
+       ELSE IF Len(obs) # Len(exp) THEN n + 1 ELSE 0
 
 JudgeC02(e) ==
     LET r == Parse(e.m, e.cls, e.id, e.pbf = 1, e.P) IN
